@@ -54,6 +54,10 @@ def qll(xss) -> str:
     return core.clist(ql(xs) for xs in xss)
 
 
+def qopt(x) -> str:
+    return "None" if x is None else f"(Some {q(x)})"
+
+
 def dy(r, hi: int, bits: int) -> float:
     """random dyadic in [0, hi] with `bits` fractional bits"""
     return r.randrange(0, hi * (1 << bits) + 1) / (1 << bits)
@@ -95,6 +99,111 @@ def gen_collect(r):
     px, k1 = gen_frame(r, shape)
     ch, k2 = gen_frame(r, shape)
     return dict(kind="collect", det=r.choice(["ccd", "cmos"]), pixel=px, charge=ch, fk=f"{k1}+{k2}")
+
+
+PIXEL_SIZES = [10.0, 8.0, 5.0, 2.5, 18.0]
+HELD = ["P", "P", "AP", "PA", "APA", "PP", "PAP", "A", "AA", "AAP"]
+
+
+def gen_particles(r, shape, sv, sh):
+    rows, cols = shape
+    n = r.choice([1, 1, 2, 3, 4, 6])
+    ps = []
+    for _ in range(n):
+        i, j = r.randrange(rows), r.randrange(cols)
+        if ps and r.random() < 0.3:       # several clusters in one pixel
+            i, j = ps[0][3], ps[0][4]
+        ov, oh = (r.choice([0.0, 0.25, 0.5, 0.5, 0.75, 0.96875]) for _ in range(2))
+        num = r.choice([float(r.randrange(1, 5000)), r.randrange(1, 4000) / 4.0, 120.0, 0.5])
+        ps.append([(i + ov) * sv, (j + oh) * sh, num, i, j])
+    return [q_[:3] for q_ in ps]
+
+
+def gen_collectp(r, held=None):
+    """charge held as particles / as array / both at collection time"""
+    shape = r.choice(SHAPES)
+    sv, sh = r.choice(PIXEL_SIZES), r.choice(PIXEL_SIZES)
+    px, k1 = gen_frame(r, shape, kind=r.choice(["empty", "random", "uniform", "sparse"]))
+    held = held or r.choice(HELD)
+    ops = []
+    for ch in held:
+        if ch == "A":
+            a, _ = gen_frame(r, shape, kind=r.choice(["random", "sparse", "hot", "uniform"]), hi=3000, bits=2)
+            ops.append(dict(op="array", a=flat(a)))
+        else:
+            ops.append(dict(op="particles", ps=gen_particles(r, shape, sv, sh)))
+    return dict(kind="collectp", det=r.choice(["ccd", "cmos"]), shape=list(shape), sv=sv, sh=sh, pixel=px, ops=ops,
+                held=held, fk=k1)
+
+
+FRACS = dict(frac_lo=[0.125, 0.25, 0.375], frac_half=[0.5], frac_hi=[0.625, 0.75, 0.875])
+
+
+def gen_photon_frame(r, shape):
+    """photon frames that are not integer valued: fractional parts below / at / above one half, faint signals"""
+    rows, cols = shape
+    fk = r.choice(["frac_lo", "frac_half", "frac_hi", "frac_hi", "faint", "mixed"])
+    hi = r.choice([1, 3, 50, 3000])
+
+    def one():
+        if fk == "faint":
+            return r.choice([0.125, 0.25, 0.5, 0.625, 0.75, 0.875, 0.96875])
+        fr = r.choice(FRACS[fk]) if fk != "mixed" else r.choice([0.0, 0.25, 0.5, 0.75, 0.875])
+        return r.randrange(0, hi) + fr
+
+    return [[one() for _ in range(cols)] for _ in range(rows)], fk
+
+
+def gen_q(r, samp):
+    if samp:      # {0, small, one half, near one, one}
+        return r.choice([0.0, 2.0 ** -6, 0.5, 1.0 - 2.0 ** -10, 1.0, 1.0, 0.9, r.random()])
+    m = r.randrange(0, 9)
+    return r.choice([0.0, 1.0, 0.5, 2.0 ** -6, 1.0 - 2.0 ** -8, r.randrange(0, (1 << m) + 1) / (1 << m)])
+
+
+def gen_qe_frac(r):
+    shape = r.choice(SHAPES)
+    samp = r.random() < 0.6
+    ph, fk = gen_photon_frame(r, shape)
+    return dict(kind="qe", sampling=samp, q=gen_q(r, samp), photon=ph, seed=r.randrange(1 << 30),
+                det=r.choice(["ccd", "cmos"]), path=r.choice(["func", "model"]), fk=fk)
+
+
+def gen_qe_select(r):
+    """simple_conversion: the efficiency as model argument, from the detector characteristics, or both"""
+    shape = r.choice(SHAPES)
+    samp = r.random() < 0.5
+    if r.random() < 0.5:
+        ph, fk = gen_photon_frame(r, shape)
+    else:
+        ph, fk = gen_frame(r, shape, hi=r.choice([5, 50, 3000]), bits=2)
+    arg = r.choice([None, None, 0.0, 0.0, 1.0, 0.5, 2.0 ** -6, 1.0 - 2.0 ** -10, 0.25])
+    char = r.choice([None, 0.0, 1.0, 1.0, 0.5, 0.25, 0.75])
+    if r.random() < 0.08:
+        arg = r.choice([-0.25, 1.5, 2.0])            # outside the documented range: must raise
+    return dict(kind="qe", sampling=samp, arg=arg, char=char, photon=ph, seed=r.randrange(1 << 30),
+                det=r.choice(["ccd", "cmos"]), path="select", fk=fk,
+                src=("none" if arg is None and char is None else "char" if arg is None else
+                     "arg" if char is None else "both"))
+
+
+def gen_fullwell_sources(r):
+    """both capacity sources, in every order relation: argument < / = / > characteristics, zero, absent"""
+    shape = r.choice(SHAPES)
+    base = float(r.choice([1, 100, 1000, 1999.75, 65536, r.randrange(1, 3000), dy(r, 2000, 2) + 0.25]))
+    rel = r.choice(["arg<char", "arg=char", "arg>char", "arg>char", "arg=0", "char=0", "char=0", "arg only",
+                    "char only", "neither", "arg<0"])
+    other = base + float(r.choice([0.25, 1, 100, 5000, 100000]))
+    arg, char = dict([
+        ("arg<char", (base, other)), ("arg=char", (base, base)), ("arg>char", (other, base)),
+        ("arg=0", (0.0, base)), ("char=0", (base, 0.0)), ("arg only", (base, None)), ("char only", (None, base)),
+        ("neither", (None, None)), ("arg<0", (-float(r.choice([1, 0.25, 100])), r.choice([None, base]))),
+    ])[rel]
+    x, fk = gen_frame(r, shape, hi=r.choice([2000, 200000]))
+    marks = [v for v in (arg, char) if v is not None and v >= 0]
+    for v in marks * 2:      # plant values at / around both capacities
+        x[r.randrange(shape[0])][r.randrange(shape[1])] = max(0.0, v + r.choice([-0.25, 0.0, 0.25, 1.0, 1000.0]))
+    return dict(kind="fullwell", path="sources", arg=arg, char=char, x=x, det=r.choice(["ccd", "cmos"]), rel=rel, fk=fk)
 
 
 def gen_qe(r):
@@ -201,11 +310,37 @@ def gen_persist(r, force_species=None):
                 cmap=cmap, pix0=flat(pix0), trap0=trap0, steps=steps, fk=fk)
 
 
-def gen_cdm(r, exact=False):
+def gen_contrast(r, direction, length, width):
+    """strong contrast ALONG the transfer direction: a hot pixel or a bright line (across the transfer direction)
+    early in the line, faint background after it - the traps filled by the bright packet meet faint packets"""
+    bg = float(r.choice([0, 1, 1, 15, 30, 100, 0.5]))
+    hot = float(r.choice([1000, 50000, 60000, 90000, 5000]))
+    lines = [[bg] * length for _ in range(width)]          # lines in transfer order
+    pos = r.randrange(0, max(1, length // 2))
+    fk = r.choice(["hot/bg", "line/bg"])
+    if fk == "hot/bg":
+        lines[r.randrange(width)][pos] = hot
+    else:
+        for ln in lines:
+            ln[pos] = hot
+    if r.random() < 0.3:
+        lines[r.randrange(width)][r.randrange(length)] = float(r.choice([hot, 300]))
+    fr = [list(row) for row in zip(*lines)] if direction == "parallel" else lines
+    return fr, fk
+
+
+def gen_cdm(r, exact=False, contrast=None):
     shape = r.choice(SHAPES[3:] if not exact else [(1, 1), (2, 1), (1, 3), (3, 2), (2, 3), (4, 2), (3, 3)])
     n = r.randrange(1, 6) if not exact else r.choice([1, 1, 2, 2, 3])
     direction = r.choice(["parallel", "serial"])
     fr, fk = gen_frame(r, shape, hi=r.choice([50, 2000, 60000]), bits=0)
+    if contrast is None:
+        contrast = r.random() < (0.25 if exact else 0.45)
+    if contrast:
+        length, width = (r.choice([3, 4, 5, 6]), r.choice([1, 1, 2])) if exact else \
+                        (r.choice([3, 4, 5, 6, 8, 10]), r.choice([1, 2, 3]))
+        fr, fk = gen_contrast(r, direction, length, width)
+        shape = (len(fr), len(fr[0]))
     p = dict(kind="cdm", direction=direction, frame=fr, fk=fk, exact=exact)
     if exact:
         # beta = 1, g dyadic; capture / release factors at the exact ends {0, 1} or (small frames) general
@@ -213,7 +348,7 @@ def gen_cdm(r, exact=False):
         p["fwc"] = float(2 ** r.randrange(10, 17))
         p["vg"] = 2.0 ** -r.randrange(20, 34)
         p["vth"] = 1.0e7
-        general = shape[0] * shape[1] <= 3 and n <= 2 and r.random() < 0.7
+        general = shape[0] * shape[1] <= 3 and n <= 2 and r.random() < 0.7 and not contrast
         p["t"] = r.choice([2.0 ** -10, 2.0 ** -6, 1.0])
         gk = [2.0 ** -r.randrange(0, 4) * r.choice([1, 3]) for _ in range(n)]
         p["nt"] = [g * p["fwc"] / (2.0 * p["vg"]) for g in gk]       # g = 2 nt vg / fwc exactly
@@ -236,12 +371,23 @@ def gen_cdm(r, exact=False):
     p["tr"] = [10 ** r.uniform(-6, 1) for _ in range(n)]
     p["nt"] = [10 ** r.uniform(6, 12) if r.random() < 0.9 else 0.0 for _ in range(n)]
     p["sigma"] = [10 ** r.uniform(-17, -13) for _ in range(n)]
+    if contrast and r.random() < 0.6:
+        # heavy trapping, slow release: densities large enough for the traps to sit above the equilibrium of the
+        # faint packets that follow the bright one
+        p["beta"] = r.choice([0.0, 0.3, 0.3, 0.5, 1.0])
+        p["fwc"] = float(r.choice([10000, 100000]))
+        p["vg"] = r.choice([1.0e-10, 1.62e-10, 1.5e-10])
+        p["t"] = r.choice([1.0e-3, 9.4722e-4, 1.0e-2])
+        p["tr"] = [p["t"] * 10 ** r.uniform(0, 3) for _ in range(n)]
+        p["nt"] = [10 ** r.uniform(10, 13) for _ in range(n)]
+        p["sigma"] = [10 ** r.uniform(-15, -13) for _ in range(n)]
+        p["tuned"] = True
     p["path"] = r.choice(["func", "model"])
     if p["path"] == "model":
         p["times"] = r.choice([1, 1, 2, 3])
     if direction == "parallel" and r.random() < 0.3:
         p["inj"], p["ninj"] = True, shape[0]
-    k = r.random()
+    k = r.random() if not contrast else 1.0
     if k < 0.06:      # the wrapper's own defaults for volume and period
         p["vg"], p["t"], p["corner"] = 0.0, 0.0, "vg=0,t=0"
     elif k < 0.10:
@@ -251,7 +397,9 @@ def gen_cdm(r, exact=False):
     return p
 
 
-GENS = [("collect", gen_collect, 24, 80), ("qe", gen_qe, 40, 160), ("fullwell", gen_fullwell, 30, 120),
+GENS = [("collect", gen_collect, 24, 80), ("collectp", gen_collectp, 36, 160),
+        ("qe", gen_qe, 30, 140), ("qe_frac", gen_qe_frac, 30, 140), ("qe_select", gen_qe_select, 36, 140),
+        ("fullwell", gen_fullwell, 24, 100), ("fullwell_sources", gen_fullwell_sources, 40, 160),
         ("kernel", gen_kernel, 60, 240), ("ipc", gen_ipc, 40, 160), ("persist", gen_persist, 110, 700),
         ("cdm", gen_cdm, 70, 300), ("cdmx", lambda r: gen_cdm(r, exact=True), 40, 160)]
 
@@ -299,9 +447,13 @@ def gen_cases(ctx: Ctx, salt="cases", scale=1.0):
     # fixed adversarial list aimed at the named mutations
     for n in range(1, 6):
         cases.append(gen_persist(r, force_species=n))
+    for held in ("P", "AP", "PA"):
+        cases.append(gen_collectp(r, held=held))
+    for _ in range(ctx.budget(6, 30)):
+        cases.append(gen_cdm(r, contrast=True))
     if not ctx.quick and salt == "cases":
         cases += exhaustive_persist()
-    order = {"collect": 0, "qe": 1, "fullwell": 2, "kernel": 3, "ipc": 4, "persist": 5, "cdm": 6}
+    order = {"collect": 0, "collectp": 0, "qe": 1, "fullwell": 2, "kernel": 3, "ipc": 4, "persist": 5, "cdm": 6}
     cases.sort(key=lambda c: order[c["kind"]])   # contiguous kinds: a worker compiles few numba functions
     return cases
 
@@ -319,9 +471,25 @@ def emit_case(c, o) -> str:
     bad = "raise" in o
     if k == "collect":
         return f"KCollect {ql(flat(c['pixel']))} {ql(flat(c['charge']))} {ql([] if bad else o['out'])}"
+    if k == "collectp":
+        ops = []
+        for op in c["ops"]:
+            if op["op"] == "array":
+                ops.append(f"OpArray {ql(op['a'])}")
+            else:
+                ps = core.clist(f"{{| p_ver := {q(v)}; p_hor := {q(h)}; p_num := {q(n)} |}}" for v, h, n in op["ps"])
+                ops.append(f"OpParticles {ps}")
+        return (f"KCollectP {core.cnat(c['shape'][0])} {core.cnat(c['shape'][1])} {q(c['sv'])} {q(c['sh'])} "
+                f"{ql(flat(c['pixel']))} {core.clist(ops)} {ql([] if bad else o['out'])}")
+    if k == "qe" and c["path"] == "select":
+        out = "None" if bad else f"(Some {ql(o['out'])})"
+        return (f"KQeSel {core.cbool(c['sampling'])} {qopt(c['arg'])} {qopt(c['char'])} {ql(flat(c['photon']))} {out}")
     if k == "qe":
         ctor = "KQeOn" if c["sampling"] else "KQeOff"
         return f"{ctor} {q(c['q'])} {ql(flat(c['photon']))} {ql([] if bad else o['out'])}"
+    if k == "fullwell" and c["path"] == "sources":
+        out = "None" if bad else f"(Some ({ql(o['o1'])}, {ql(o['o2'])}))"
+        return f"KFullWellS {qopt(c['arg'])} {qopt(c['char'])} {ql(flat(c['x']))} {out}"
     if k == "fullwell":
         out = "None" if bad else f"(Some ({ql(o['o1'])}, {ql(o['o2'])}))"
         return f"KFullWell {q(c['c'])} {ql(flat(c['x']))} {out}"
@@ -378,10 +546,17 @@ def fr_(h) -> Fraction:
 def classify(c, o, as_modelled: bool):
     """Python-side description of a case that Coq judged to violate the specification (signature + shrink only)."""
     k = c["kind"]
+    if k == "fullwell" and c["path"] == "sources":
+        return "fullwell_sources", dict(kind=k, relation=c["rel"], raised=("raise" in o)), None
+    if k == "qe" and c["path"] == "select":
+        return "qe_sources", dict(kind=k, sampling=c["sampling"], source=c["src"], raised=("raise" in o),
+                                  arg_zero=(c["arg"] == 0)), None
     if "raise" in o:
         return "raises", dict(kind=k, error=o["raise"]), None
     if k == "collect":
         return "collection_exact", dict(kind=k), None
+    if k == "collectp":
+        return "collection_exact", dict(kind=k, held=c["held"]), None
     if k == "qe":
         return ("qe_sampling_bounds" if c["sampling"] else "qe_exact"), dict(kind=k, sampling=c["sampling"]), None
     if k == "fullwell":
@@ -401,7 +576,20 @@ def classify(c, o, as_modelled: bool):
             else:
                 corner = c.get("corner", "none")
             return "cdm_nonfinite", dict(kind=k, corner=corner), None
-        return "cdm_bounds", dict(kind=k, direction=c["direction"]), None
+        # shrink to the first line (column for parallel, row for serial) that breaks the bound
+        shrunk, why = None, "bounds"
+        for j, (li, lo) in enumerate(zip(o["lines_in"], o["lines_out"])):
+            li, lo = [fr_(h) for h in li], [fr_(h) for h in lo]
+            slack = sum(li) * Fraction(1, 10 ** 9)
+            neg = any(v < 0 for v in lo)
+            over = any(sum(lo[:m]) > sum(li[:m]) + slack for m in range(1, len(li) + 1))
+            if neg or over:
+                why = "negative" if neg else "creation"
+                line = [float(v) for v in li]
+                fr = [[v] for v in line] if c["direction"] == "parallel" else [line]
+                shrunk = dict(c, frame=fr, fk="shrunk", times=1)
+                break
+        return "cdm_bounds", dict(kind=k, direction=c["direction"], change=why), shrunk
     # persistence: find the first (step, pixel) that breaks the account
     npx, n = len(c["pix0"]), len(c["taus"])
     pix = [Fraction(v) for v in c["pix0"]]
@@ -438,8 +626,13 @@ def is_nontrivial(c) -> bool:
     k = c["kind"]
     if k == "collect":
         return any(flat(c["pixel"])) and any(flat(c["charge"]))
+    if k == "collectp":
+        return True
     if k == "qe":
         return any(flat(c["photon"]))
+    if k == "fullwell" and c["path"] == "sources":
+        cap = c["arg"] if c["arg"] is not None else c["char"]
+        return cap is None or cap < 0 or any(v > cap for v in flat(c["x"]))
     if k == "fullwell":
         return any(v > c["c"] for v in flat(c["x"])) or c["c"] < 0
     if k == "kernel":
@@ -550,6 +743,19 @@ def run(ctx: Ctx):
         if c["kind"] == "cdm":
             ctx.dist("cdm_species", len(c["tr"]))
             ctx.dist("cdm_direction", c["direction"])
+            ctx.dist("cdm_line_length", len(c["frame"]) if c["direction"] == "parallel" else len(c["frame"][0]))
+        if c["kind"] == "collectp":
+            ctx.dist("charge_held", c["held"])
+        if c["kind"] == "fullwell" and c["path"] == "sources":
+            ctx.dist("fullwell_sources", c["rel"])
+        if c["kind"] == "qe":
+            ctx.dist("qe_path", c["path"] + ("/sampling" if c["sampling"] else "/product"))
+            if c["path"] == "select":
+                ctx.dist("qe_source", c["src"])
+            else:
+                qv = c["q"]
+                ctx.dist("qe_value", "0" if qv == 0 else "1" if qv == 1 else "1/2" if qv == 0.5 else
+                         "small" if qv < 0.1 else "near 1" if qv > 0.99 else "other")
         if "raise" in o:
             ctx.dist("raised", c["kind"])
         if is_nontrivial(c):
